@@ -219,6 +219,25 @@ inductive ReconSample (α : Type) where
   | mat (M : Dense.MatArg α)
   deriving Repr, BEq, DecidableEq
 
+/-- The factor `reconstruct` uses for a mode given its sample (if any): the factor itself, the rows
+picked by an index vector, or the mixing matrix times the factor. -/
+def ReconSample.apply [Add α] [Mul α] [Zero α] (U : Mat α) (c : Nat) : Option (ReconSample α) → Except Reject (Mat α)
+  | none => .ok U
+  | some (.idx l) =>
+    if l.isEmpty then .ok U
+    else if l.any (· ≥ U.length) then .error .reject
+    else .ok (l.map fun a => U.getD a [])
+  | some (.mat M) =>
+    if M.m == 0 then .ok U
+    else if M.n == U.length then .ok (M.rows.mulD U M.m M.n c)
+    else .error .reject     -- a 2-d float array used as an index
+
+/-- New factor of mode `k`: the LAST sample listed for `k` wins (`full_samples[mode] = sample`). -/
+def Ttensor.reconFactor [Add α] [Mul α] [Zero α] (T : Ttensor α) (zs : List (ReconSample α × Nat)) (k : Nat) :
+    Except Reject (Mat α) :=
+  ReconSample.apply (T.factors.getD k []) (T.core.shape.getD k 0)
+    ((zs.reverse.find? (fun p => p.2 == k)).map (·.1))
+
 /-- `ttensor.reconstruct(samples, modes)`. -/
 def Ttensor.reconstruct [Add α] [Mul α] [Zero α] (T : Ttensor α) (samples : Option (List (ReconSample α)))
     (modes : Option (List Nat)) : Except Reject (Dense α) :=
@@ -231,20 +250,7 @@ def Ttensor.reconstruct [Add α] [Mul α] [Zero α] (T : Ttensor α) (samples : 
     if ss.length > 0 && ss.length != md.length then .error .reject
     else if (ss.zip md).any (fun p => p.2 ≥ N) then .error .reject
     else
-      let pick (k : Nat) : Option (ReconSample α) := ((ss.zip md).reverse.find? (fun p => p.2 == k)).map (·.1)
-      let newU : Except Reject (List (Mat α)) := (List.range N).mapM fun k =>
-        let U := T.factors.getD k []
-        match pick k with
-        | none => .ok U
-        | some (.idx l) =>
-          if l.isEmpty then .ok U
-          else if l.any (· ≥ U.length) then .error .reject
-          else .ok (l.map fun a => U.getD a [])
-        | some (.mat M) =>
-          if M.m == 0 then .ok U
-          else if M.n == U.length then .ok (M.rows.mulD U M.m M.n (T.core.shape.getD k 0))
-          else .error .reject     -- a 2-d float array used as an index
-      match newU with
+      match (List.range N).mapM (T.reconFactor (ss.zip md)) with
       | .error e => .error e
       | .ok fs => Ttensor.full ⟨T.core, fs⟩
 
